@@ -69,8 +69,12 @@ func New(logger zerolog.Logger, proxies ...string) func(http.Handler) http.Handl
 			} else {
 				ipHolders = append(ipHolders, ipNet)
 			}
+		} else if ip := net.ParseIP(ipAddr); ip != nil {
+			ipHolders = append(ipHolders, simpleIP(ip))
 		} else {
-			ipHolders = append(ipHolders, simpleIP(net.ParseIP(ipAddr)))
+			// an invalid entry must not end up as a nil IP in the set. It would be equal to
+			// the likewise nil IP of a peer with an address, which cannot be parsed
+			logger.Warn().Msgf("Trusted proxies IP address %q could not be parsed", ipAddr)
 		}
 	}
 
